@@ -44,7 +44,7 @@ def run(ctx):
     ok = ctx.prove("Properties/C01.v")
     n = 400 if ctx.thorough else 64
     nops = 70 if ctx.thorough else 45
-    hs = mboxx.generate(ctx, n, nops, mix=MIX)
+    hs = mboxx.generate(ctx, n, nops, mix=MIX, pack=(4, 4, 5))
     errs = [h for h in hs if h.error]
     for h in errs[:3]:
         ctx.violation("the implementation raised while running a history",
